@@ -3,6 +3,7 @@
 package e2e
 
 import (
+	"context"
 	"encoding/json"
 	"fmt"
 	"reflect"
@@ -101,6 +102,8 @@ func TestVerifC14Enc(t *testing.T) {
 	for _, c := range vCases(n + len(builtins)) {
 		if c == 0 {
 			c14UnmarshalKeeps(out, n+len(builtins))
+			c14UnmarshalExpanded(out, n+len(builtins)+1)
+			c14ErrorTexts(out, n+len(builtins)+2)
 		}
 		if c < len(builtins) {
 			c14Builtin(out, c, builtins[c])
@@ -397,4 +400,178 @@ func c14UnmarshalKeeps(out *vOut, c int) {
 	out.Linef("nt")
 	out.Linef("end")
 	out.Flush()
+}
+
+// ---- secrets that arrive through a provider expansion (${scheme:…}) ----------------------------------
+// The resolver parses the provider's bytes as YAML; a secret that reads as a non-string YAML scalar
+// (digits, hex, exponent, bool, null, date, a flow sequence like "[REDACTED]") is carried as an
+// expandedValue with its original text, and the decode hook must hand the ORIGINAL text to every target
+// of string kind — configopaque.String included.
+
+type c14MemProvider struct {
+	main map[string]any
+	vals map[string]string
+}
+
+func (p *c14MemProvider) Retrieve(_ context.Context, uri string, _ confmap.WatcherFunc) (*confmap.Retrieved, error) {
+	key := strings.TrimPrefix(uri, "mem:")
+	if key == "main" {
+		return confmap.NewRetrieved(p.main)
+	}
+	return confmap.NewRetrievedFromYAML([]byte(p.vals[key])) // what envprovider / fileprovider do
+}
+func (*c14MemProvider) Scheme() string                 { return "mem" }
+func (*c14MemProvider) Shutdown(context.Context) error { return nil }
+
+type c14ExpTarget struct {
+	Direct  configopaque.String            `mapstructure:"direct"`
+	Ptr     *configopaque.String           `mapstructure:"ptr"`
+	Headers map[string]configopaque.String `mapstructure:"headers"`
+	List    []configopaque.String          `mapstructure:"list"`
+	Nested  c14PlainInner                  `mapstructure:"nested"`
+	Inline  configopaque.String            `mapstructure:"inline"`
+}
+
+func c14Resolve(main map[string]any, vals map[string]string, into any) (err error) {
+	defer func() {
+		if r := recover(); r != nil {
+			err = fmt.Errorf("PANIC: %v", r)
+		}
+	}()
+	p := &c14MemProvider{main: main, vals: vals}
+	r, err := confmap.NewResolver(confmap.ResolverSettings{URIs: []string{"mem:main"},
+		ProviderFactories: []confmap.ProviderFactory{confmap.NewProviderFactory(func(confmap.ProviderSettings) confmap.Provider { return p })}})
+	if err != nil {
+		return err
+	}
+	conf, err := r.Resolve(context.Background())
+	if err != nil {
+		return err
+	}
+	return conf.Unmarshal(into)
+}
+
+func c14UnmarshalExpanded(out *vOut, c int) {
+	out.Linef("case %d unmarshal-expanded", c)
+	secrets := []string{"s3cr3t-plain-Qx", "8675309421", "0042915", "0x1F4A77", "1e6", "-17", "3.14159", "true", "false", "null", "~",
+		"2024-01-02", "2001-12-14T21:59:43.10-05:00", "[REDACTED]", "0o777", ".inf", "yes", "12:30:45", "0b1011", "+12e03", "1_000_000"}
+	type pos struct {
+		name string
+		main map[string]any
+		get  func(t *c14ExpTarget) string
+		want func(sec string) string
+	}
+	same := func(s string) string { return s }
+	positions := []pos{
+		{"direct", map[string]any{"direct": "${mem:s}"}, func(t *c14ExpTarget) string { return string(t.Direct) }, same},
+		{"ptr", map[string]any{"ptr": "${mem:s}"}, func(t *c14ExpTarget) string {
+			if t.Ptr == nil {
+				return "<nil pointer>"
+			}
+			return string(*t.Ptr)
+		}, same},
+		{"headers", map[string]any{"headers": map[string]any{"h": "${mem:s}"}}, func(t *c14ExpTarget) string { return string(t.Headers["h"]) }, same},
+		{"list", map[string]any{"list": []any{"${mem:s}"}}, func(t *c14ExpTarget) string {
+			if len(t.List) != 1 {
+				return fmt.Sprintf("<%d elements>", len(t.List))
+			}
+			return string(t.List[0])
+		}, same},
+		{"nested", map[string]any{"nested": map[string]any{"secret": "${mem:s}"}}, func(t *c14ExpTarget) string { return string(t.Nested.Secret) }, same},
+		{"inline", map[string]any{"inline": "Bearer ${mem:s}"}, func(t *c14ExpTarget) string { return string(t.Inline) }, func(s string) string { return "Bearer " + s }},
+	}
+	for _, sec := range secrets {
+		for _, p := range positions {
+			var t c14ExpTarget
+			err := c14Resolve(p.main, map[string]string{"s": sec}, &t)
+			want := p.want(sec)
+			out.Linef("op unm pos=expanded_%s hook=0 sec=%s", p.name, vHex(want))
+			if err != nil {
+				out.Linef("obs error")
+				out.Linef("viol sig=C14/unmarshal/expanded-secret-rejected/%s wrote=%s err_has_secret=%d", p.name, vHex(sec), vB(strings.Contains(err.Error(), sec)))
+				if strings.Contains(err.Error(), sec) {
+					out.Linef("viol sig=C14/error-text/secret-in-unmarshal-error/expanded-%s wrote=%s err=%s", p.name, vHex(sec), vHex(err.Error()))
+				}
+				continue
+			}
+			got := p.get(&t)
+			out.Linef("obs stored %s", vHex(got))
+			if got != want {
+				out.Linef("viol sig=C14/unmarshal/expanded-secret-changed/%s wrote=%s got=%s", p.name, vHex(sec), vHex(got))
+			}
+		}
+	}
+	out.Linef("nt")
+	out.Linef("end")
+	out.Flush()
+}
+
+// ---- the error-text channel: errors of Unmarshal / Validate of configurations holding secrets -----------
+
+type c14ErrTarget struct {
+	Token   configopaque.String            `mapstructure:"token"`
+	Headers map[string]configopaque.String `mapstructure:"headers"`
+	Port    int                            `mapstructure:"port"`
+	Inner   c14PlainInner                  `mapstructure:"inner"`
+}
+
+func c14ErrorTexts(out *vOut, c int) {
+	out.Linef("case %d error-texts", c)
+	out.Linef("op builtin name=error-texts")
+	out.Linef("obs checked")
+	const sec = "Zs3cr3t-err-channel-Qx"
+	check := func(what string, err error) {
+		out.Linef("stat error_texts_checked 1")
+		if err == nil {
+			out.Linef("viol sig=C14/error-text/expected-an-error what=%s", what)
+			return
+		}
+		if strings.Contains(err.Error(), sec) || strings.Contains(fmt.Sprintf("%v %+v %q", err, err, err), sec) {
+			out.Linef("viol sig=C14/error-text/secret-in-unmarshal-error what=%s err=%s", what, vHex(err.Error()))
+		}
+	}
+	var t c14ErrTarget
+	// a sibling setting is wrong: the error must not quote the whole map / the secret
+	check("sibling-type-error", confmap.NewFromStringMap(map[string]any{"token": sec, "port": "not-a-number"}).Unmarshal(&t))
+	check("unknown-sibling-key", confmap.NewFromStringMap(map[string]any{"token": sec, "bogus": 1}).Unmarshal(&t))
+	check("unknown-key-next-to-header", confmap.NewFromStringMap(map[string]any{"headers": map[string]any{"authorization": sec}, "inner": map[string]any{"secret": sec, "zz": 1}}).Unmarshal(&t))
+	check("secret-of-wrong-kind-next-to-it", confmap.NewFromStringMap(map[string]any{"token": sec, "headers": map[string]any{"a": []any{1}}}).Unmarshal(&t))
+	// built-in components: invalid sibling settings next to secrets, through Unmarshal and Validate
+	for _, b := range c14Builtins() {
+		viaPtr := false
+		cfg := b.cfg
+		c14Inject(reflect.ValueOf(cfg), sec, 0, &viaPtr)
+		m, err := c14Marshal(cfg) // redacted map: only used to find the keys
+		if err != nil {
+			continue
+		}
+		_ = m
+		fresh := c14FreshBuiltin(b.name)
+		// headers carry the secret, a sibling key is unknown
+		w := map[string]any{"zz_unknown": 1}
+		switch b.name {
+		case "otlpreceiver":
+			w = map[string]any{"protocols": map[string]any{"http": map[string]any{"response_headers": map[string]any{"x": sec}, "zz_unknown": 1}}}
+		default:
+			w["headers"] = map[string]any{"authorization": sec}
+		}
+		check("builtin-unknown-key/"+b.name, confmap.NewFromStringMap(w).Unmarshal(fresh))
+		if v, ok := cfg.(interface{ Validate() error }); ok {
+			if err := v.Validate(); err != nil && strings.Contains(err.Error(), sec) {
+				out.Linef("viol sig=C14/error-text/secret-in-validate-error builtin=%s err=%s", b.name, vHex(err.Error()))
+			}
+		}
+	}
+	out.Linef("nt")
+	out.Linef("end")
+	out.Flush()
+}
+
+func c14FreshBuiltin(name string) any {
+	for _, b := range c14Builtins() {
+		if b.name == name {
+			return b.cfg
+		}
+	}
+	return nil
 }
